@@ -129,7 +129,18 @@ func genCacheCase(t *rapid.T) CacheCase {
 	}
 	c.Dir = genDir(t)
 	c.Junk = rapid.IntRange(0, 5).Draw(t, "junk_in_cache_dir") == 0
-	names := taskNames[:n]
+	names := append([]string(nil), taskNames[:n]...)
+	if rapid.IntRange(0, 3).Draw(t, "late_task") == 0 {
+		// a task that is added to the spokfile in the course of the history
+		z := TaskSpec{Name: "Z", NCmds: 1}
+		if rapid.Bool().Draw(t, "late_glob") {
+			z.Globs = []string{rapid.SampledFrom(globPats).Draw(t, "late_pat")}
+		} else {
+			z.Files = []string{rapid.SampledFrom(literals).Draw(t, "late_file")}
+		}
+		c.Late = []TaskSpec{z}
+		names = append(names, "Z")
+	}
 	nsteps := rapid.IntRange(2, 14).Draw(t, "nsteps")
 	if ev.Thorough() {
 		nsteps = rapid.IntRange(2, 30).Draw(t, "nsteps2")
@@ -152,6 +163,8 @@ func genCacheCase(t *rapid.T) CacheCase {
 			}
 		case k < 12:
 			st = Step{Op: "rmcache", Whole: rapid.Bool().Draw(t, "whole")}
+		case k < 14 && len(c.Late) > 0:
+			st = Step{Op: "grow"}
 		case k < 13:
 			if _, two := c.Links["ln2.txt"]; two && rapid.Bool().Draw(t, "swap_links") {
 				st = Step{Op: "swap", File: "ln.txt", File2: "ln2.txt"}
@@ -499,6 +512,14 @@ func templateCases() []CacheCase {
 			run([]string{"A", "B"}, false, nil), {Op: "swap", File: "ln.txt", File2: "ln2.txt"}, fin, fin, {Op: "swap", File: "ln.txt", File2: "ln2.txt"}, fin}})
 		out = append(out, CacheCase{Tasks: plain, Init: map[string]string{"a.txt": "0", "b.txt": "1"}, Steps: []Step{
 			run([]string{"A", "B"}, false, nil), {Op: "swap", File: "a.txt", File2: "b.txt"}, fin, fin, {Op: "swap", File: "a.txt", File2: "b.txt"}, fin}})
+	}
+	// the spokfile gains a task between runs; only the new task is asked for; then all of them
+	old := []TaskSpec{{Name: "A", Files: []string{"a.txt"}, NCmds: 1}, {Name: "B", Globs: []string{"*.txt"}, NCmds: 1}}
+	for _, z := range []TaskSpec{{Name: "Z", Files: []string{"b.txt"}, NCmds: 1}, {Name: "Z", NCmds: 1}, {Name: "Z", Globs: []string{"*.txt"}, Deps: []string{"A"}, NCmds: 1}} {
+		for _, fin := range final {
+			out = append(out, CacheCase{Tasks: old, Late: []TaskSpec{z}, Init: map[string]string{"a.txt": "0", "b.txt": "1"}, Steps: []Step{
+				run([]string{"A", "B"}, false, nil), {Op: "grow"}, run([]string{"Z"}, false, nil), fin, run([]string{"A", "B", "Z"}, false, nil), fin}})
+		}
 	}
 	return out
 }
